@@ -765,7 +765,8 @@ def _clone_stmts(f, ren=None, repo=None):
     return out
 
 
-def run_clones(repo, res, cls_a='photutils.segmentation.catalog.SourceCatalog', cls_b='photutils.aperture.stats.ApertureStats'):
+def run_clones(repo, res, cls_a='photutils.segmentation.catalog.SourceCatalog', cls_b='photutils.aperture.stats.ApertureStats',
+               collect_only=False):
     """Copy-paste consistency (sibling cross-check): same-named methods of the two catalog classes that are near-clones must be
     exact clones up to the vocabulary map; a fix or slip applied to one copy only is reported."""
     import difflib
@@ -773,6 +774,9 @@ def run_clones(repo, res, cls_a='photutils.segmentation.catalog.SourceCatalog', 
     ma = {f.name: f for f in A.all_functions() if f.cls is A or True}
     mb = {f.name: f for f in B.all_functions()}
     n = 0
+    from .. import canon as _canon
+    ref_clones = set((_canon.table().get('__clones__') or {}).get(f'{cls_a}|{cls_b}', ())) if not collect_only else set()
+    near = []
     for name in sorted(set(ma) & set(mb)):
         fa, fb = ma[name], mb[name]
         if fa.is_setter != fb.is_setter or fa.fullname == fb.fullname or name in CLONE_SKIP:
@@ -785,7 +789,11 @@ def run_clones(repo, res, cls_a='photutils.segmentation.catalog.SourceCatalog', 
             sim = len([s for s in ta if s in tb]) / max(len(ta), len(tb))
         else:
             sim = difflib.SequenceMatcher(None, ' ; '.join(ta), ' ; '.join(tb)).ratio()
-        if sim < 0.6:
+        # pairs that are near-clones on the reference tree (canon table) stay pairs however far a change moved them apart
+        if sim < 0.6 and name not in ref_clones:
+            continue
+        near.append(name)
+        if collect_only:
             continue
         only_a = [(s, st) for s, st in sa_ if s not in tb]
         only_b = [(s, st) for s, st in sb if s not in ta]
@@ -809,6 +817,8 @@ def run_clones(repo, res, cls_a='photutils.segmentation.catalog.SourceCatalog', 
             res.add(Finding('CLONE', owner.fullname, f'{name}: {s1[:80]} / {s2[:80]}', f'{owner.module.relpath}:{st.lineno}',
                             f'{A.name}.{name} and {B.name}.{name} are copies of the same code but disagree: `{s1[:110]}` vs `{s2[:110]}`; '
                             f'one of the two catalogs computes this quantity differently', {}))
+    if collect_only:
+        return near
     return n
 
 
@@ -1278,7 +1288,7 @@ def run_loop_break(repo, res, modules):
 
 
 _PACK = [('T-AXIS', 'run_axis'), ('DEADSTORE', 'run_deadstore'), ('CLASS-MUTABLE', 'run_class_mutable'),
-         ('MUTABLE-DEFAULT', 'run_mutable_default'), ('LOOP-BREAK', 'run_loop_break'), ('NONFINITE', 'run_nonfinite'),
+         ('MUTABLE-DEFAULT', 'run_mutable_default'), ('GUARD-FAMILY', 'run_guard_family'), ('MEMO-STALE', 'run_memo_stale'), ('A2-PROP', 'run_pure_getters'), ('LOOP-BREAK', 'run_loop_break'), ('LOOP-COUNTER', 'run_loop_counter'), ('NONFINITE', 'run_nonfinite'),
          ('LABEL-EQ', 'run_label_eq'), ('ROUND', 'run_round'), ('LOOP-TWIN', 'run_loop_twin'),
          ('GENERIC-DECOR', 'run_no_cached_property'), ('NO-OVERWRITE', 'run_no_overwrite_input'), ('SLICE-KIND', 'run_slice_kind'),
          ('LOOPVAR', 'run_loopvar_used'), ('UNRAVEL', 'run_unravel'), ('FWD', 'run_forward'), ('UNIT-LAST', 'run_unit_last'),
@@ -1331,4 +1341,183 @@ def run_generic_pack(repo, res, prop, extra_modules=()):
         r_ = fn(repo, res, scope)
         n += r_ if isinstance(r_, int) else 0
     res.notes['generic_pack_modules'] = sorted(mods)
+    return n
+
+
+def run_guard_family(repo, res, modules):
+    """`if flag_a or flag_b:` guarding a block that also consumes `flag_c` of the same parameter family (`fix_center`, `fix_pa`,
+    `fix_eps`): a request made through `flag_c` alone is silently ignored."""
+    n = 0
+    for f in repo.functions.values():
+        if f.module.name not in modules:
+            continue
+        params = [p for p in f.params if p not in ('self', 'cls')]
+        for node in ast.walk(f.node):
+            if not (isinstance(node, ast.If) and isinstance(node.test, ast.BoolOp) and isinstance(node.test.op, ast.Or)
+                    and len(node.test.values) >= 2 and all(isinstance(v, ast.Name) for v in node.test.values)):
+                continue
+            names = [v.id for v in node.test.values]
+            if '_' not in names[0]:
+                continue
+            pre = names[0].split('_')[0] + '_'
+            if not all(x.startswith(pre) and x in params for x in names):
+                continue
+            used = {x.id for b in node.body for x in ast.walk(b) if isinstance(x, ast.Name)}
+            missing = [p for p in params if p.startswith(pre) and p not in names and p in used]
+            n += 1
+            res.oblige('GUARD-FAMILY', f'{f.qualname}: the guard `{unparse(node.test, 60)}` names every `{pre}*` flag its block consumes',
+                       not missing, nontrivial=True, sample={'function': f.fullname, 'guard': unparse(node.test, 60)})
+            if missing:
+                res.add(Finding('GUARD-FAMILY', f.fullname, 'guard ' + ' '.join(sorted(names)), f'{f.module.relpath}:{node.lineno}',
+                                f'{f.qualname}: the block guarded by `{unparse(node.test, 60)}` also consumes {missing}, which the guard '
+                                f'does not test: a request made through {missing} alone is silently ignored', {}))
+    res.inst('GUARD-FAMILY', 0)
+    return n
+
+
+def run_memo_stale(repo, res, modules):
+    """A hand-rolled memo (`if self._m is None: self._m = f(self.a, self.b)`) must be reset wherever `a`/`b` are written: in the
+    class's own methods and, for attributes that other code assigns (`obj.a = ...` anywhere in the package), not be used at all."""
+    n = 0
+    ext_writes = {}
+    for m in repo.modules.values():
+        if '/tests/' in m.relpath:
+            continue
+        for node in ast.walk(m.tree):
+            if isinstance(node, (ast.Assign, ast.AugAssign)):
+                for t in (node.targets if isinstance(node, ast.Assign) else [node.target]):
+                    if isinstance(t, ast.Attribute) and not (isinstance(t.value, ast.Name) and t.value.id == 'self'):
+                        ext_writes.setdefault(t.attr, []).append((m, node))
+    for c in repo.classes.values():
+        if c.module.name not in modules:
+            continue
+        own = [f for f in c.all_functions() if f.cls is c]
+        for f in own:
+            for node in ast.walk(f.node):
+                if not (isinstance(node, ast.If) and isinstance(node.test, ast.Compare) and len(node.test.ops) == 1
+                        and isinstance(node.test.ops[0], ast.Is) and isinstance(node.test.left, ast.Attribute)
+                        and isinstance(node.test.left.value, ast.Name) and node.test.left.value.id == 'self'
+                        and isinstance(node.test.comparators[0], ast.Constant) and node.test.comparators[0].value is None):
+                    continue
+                A = node.test.left.attr
+                if not any(isinstance(s_, ast.Assign) and any(isinstance(t, ast.Attribute) and isinstance(t.value, ast.Name)
+                                                               and t.value.id == 'self' and t.attr == A for t in s_.targets)
+                           for b in node.body for s_ in ast.walk(b)):
+                    continue
+                deps = {x.attr for b in node.body for x in ast.walk(b)
+                        if isinstance(x, ast.Attribute) and isinstance(x.value, ast.Name) and x.value.id == 'self' and x.attr != A
+                        and isinstance(x.ctx, ast.Load) and c.lookup(x.attr) is None}
+                stale = []
+                for g in own:
+                    if g.name == '__init__':
+                        continue
+                    for st in ast.walk(g.node):
+                        if isinstance(st, (ast.Assign, ast.AugAssign)):
+                            tg = st.targets if isinstance(st, ast.Assign) else [st.target]
+                            for t in tg:
+                                base = t
+                                while isinstance(base, ast.Subscript):
+                                    base = base.value
+                                if isinstance(base, ast.Attribute) and isinstance(base.value, ast.Name) and base.value.id == 'self' \
+                                        and base.attr in deps:
+                                    resets = any(isinstance(s2, ast.Assign) and any(isinstance(t2, ast.Attribute) and t2.attr == A
+                                                                                    for t2 in s2.targets) for s2 in ast.walk(g.node))
+                                    if not resets:
+                                        stale.append(f'{g.qualname} writes self.{base.attr}')
+                for d in sorted(deps):
+                    if d.startswith('_'):
+                        continue          # private: only the class's own methods write it
+                    for m, wnode in ext_writes.get(d, []):
+                        stale.append(f'{m.relpath}:{wnode.lineno} assigns .{d} from outside')
+                n += 1
+                res.oblige('MEMO-STALE', f'{c.name}.{f.name}: the memo `self.{A}` is reset wherever its inputs are written', not stale,
+                           nontrivial=True, sample={'class': c.fullname, 'memo': A, 'inputs': sorted(deps)})
+                if stale:
+                    res.add(Finding('MEMO-STALE', f.fullname, f'memo {A}', f'{f.module.relpath}:{node.lineno}',
+                                    f'{f.qualname} memoises `self.{A}` (computed from {sorted(deps)}) behind `if self.{A} is None`, but '
+                                    f'{"; ".join(stale[:3])} without resetting it: later reads return the value of the old inputs', {}))
+    res.inst('MEMO-STALE', 0)
+    return n
+
+
+def run_loop_counter(repo, res, modules):
+    """A counter/flag that limits work *per element* (`iter_ = 0` ... `while iter_ < max_iters: iter_ += 1`) must be reset inside the
+    per-element loop: bound once before the loop, advanced inside it, tested inside it and never read after it, it is a budget
+    shared by all elements, so later elements are cut short depending on earlier ones."""
+    n = 0
+    for f in repo.functions.values():
+        if f.module.name not in modules:
+            continue
+        for loop in ast.walk(f.node):
+            if not isinstance(loop, ast.For):
+                continue
+            body_nodes = [x for b in loop.body for x in ast.walk(b)]
+            advanced = {}
+            for x in body_nodes:
+                if isinstance(x, ast.AugAssign) and isinstance(x.target, ast.Name) and isinstance(x.op, (ast.Add, ast.Sub)) \
+                        and isinstance(x.value, ast.Constant):
+                    advanced.setdefault(x.target.id, x)
+            for v, aug in advanced.items():
+                # plain (re)binding inside the loop body = reset per element
+                if any(isinstance(x, ast.Assign) and any(isinstance(t, ast.Name) and t.id == v for t in x.targets) for x in body_nodes):
+                    n += 1
+                    res.oblige('LOOP-COUNTER', f'{f.qualname}: `{v}` is reset for every element of the loop', True, nontrivial=True,
+                               sample={'function': f.fullname, 'counter': v})
+                    continue
+                tested = any(isinstance(x, (ast.While, ast.If)) and any(isinstance(y, ast.Name) and y.id == v for y in ast.walk(x.test))
+                             for x in body_nodes)
+                if not tested:
+                    continue
+                end = getattr(loop, 'end_lineno', loop.lineno)
+                read_after = any(isinstance(x, ast.Name) and x.id == v and isinstance(x.ctx, ast.Load) and x.lineno > end
+                                 for x in ast.walk(f.node))
+                bound_before = any(isinstance(x, ast.Assign) and any(isinstance(t, ast.Name) and t.id == v for t in x.targets)
+                                   and x.lineno < loop.lineno for x in ast.walk(f.node))
+                if read_after or not bound_before:
+                    continue
+                n += 1
+                res.oblige('LOOP-COUNTER', f'{f.qualname}: `{v}` is reset for every element of the loop', False, nontrivial=True,
+                           sample={'function': f.fullname, 'counter': v})
+                res.add(Finding('LOOP-COUNTER', f.fullname, f'counter {v}', f'{f.module.relpath}:{aug.lineno}',
+                                f'{f.qualname}: `{v}` is initialised once before the loop over `{unparse(loop.iter, 40)}`, advanced and '
+                                f'tested inside it and never read afterwards: it is not reset per element, so the iteration budget of '
+                                f'one element depends on how many iterations the earlier elements used', {}))
+    res.inst('LOOP-COUNTER', 0)
+    return n
+
+
+A2_PROP_EXEMPT = {
+    'photutils.segmentation.catalog.SourceCatalog.centroid_win':
+        'the call summary merges the optimizer-argument list built per call (`args[3] *= fluxfrac`) with stored fields; decided by '
+        'CACHE-PURE at that site',
+}
+
+
+def run_pure_getters(repo, res, modules):
+    """A property (plain or lazy) only reads: it never modifies an array stored on its object in place (E-ALIAS field-mutation
+    summary of the getter, callees included).  A getter that does so changes what every other reader of the object sees,
+    merely by being looked at."""
+    from .C10 import get_alias
+    d, _ft = get_alias(repo)
+    n = 0
+    for c in repo.classes.values():
+        if c.module.name not in modules:
+            continue
+        for fs in c.methods.values():
+            for f in fs:
+                if not f.is_property or f.is_setter or f.fullname in A2_PROP_EXEMPT:
+                    continue
+                try:
+                    sm = d.summary(f)
+                except Exception:
+                    continue
+                n += 1
+                res.oblige('A2-PROP', f'{f.qualname} (property) modifies no stored array of its object in place', not sm.mutf,
+                           nontrivial=True, sample={'property': f.fullname} if n % 40 == 0 else None)
+                for fld, sites in sm.mutf.items():
+                    for s in sites.values():
+                        res.add(Finding('A2-PROP', s.finfo.fullname, norm_stmt_text(s.stmt), s.loc,
+                                        f'reading the property {f.qualname} modifies `self.{fld}` in place ({s.describe()}): the object '
+                                        f'(and whatever shares that array) is changed by a mere read', {}))
+    res.inst('A2-PROP', 0)
     return n
